@@ -418,6 +418,10 @@ func eqTerm(t types.Type, x, y value) *sym.Term {
 		return sym.Bool(x == y.(complex128))
 	case string:
 		ys := y.(string)
+		if x == "" || ys == "" {
+			// an opaque printed value is never the empty string
+			return sym.Bool(x == ys)
+		}
 		if x != ys && (hasSymMarker(x) || hasSymMarker(ys)) {
 			panic(abortPath{"comparison of a string that embeds a symbolic number"})
 		}
